@@ -2,7 +2,7 @@
 From Coq Require Import ZArith NArith List Bool.
 From Coq.Strings Require Import Byte.
 From SV Require Import Base.Bytes Base.Py Rx.Syntax Gen.Generated Msg.Types Filt.Text Filt.Value Filt.Simple Filt.RoundTrip
-  Filt.Total Filt.Sound.
+  Filt.Total Filt.Sound Filt.Range.
 Import ListNotations.
 
 (* For ANY string (a list of code points, lone surrogates included) and any recursion budget,
@@ -26,6 +26,17 @@ Proof. exact from_string_sound. Qed.
 Theorem C15_accepted_reparses_to_itself :
   forall d s f, from_string d s = FOk f -> from_string d (bn (print_filter f)) = FOk f.
 Proof. exact accepted_filters_reparse. Qed.
+
+(* The offset and length a FilterSyntaxError reports lie inside the input: inside the encoded filter
+   for a parse error, inside the (stripped) string for a character that cannot be encoded. *)
+Theorem C15_error_position_in_range :
+  forall d s o l, from_string d s = FErr (FSyn o l) ->
+  (0 <= o)%Z /\ (0 <= l)%Z /\
+  (match encode_se (strip s) 0 return Prop with
+   | inl b => (o + l <= zlen b)%Z
+   | inr _ => (o + l <= zlen (strip s))%Z
+   end).
+Proof. exact from_string_error_in_range. Qed.
 
 (* an accepted item always consumes input: the loops make progress *)
 Theorem C15_progress :
@@ -52,5 +63,6 @@ Proof. repeat split; vm_compute; reflexivity. Qed.
 Print Assumptions C15_total.
 Print Assumptions C15_accepted_is_well_formed.
 Print Assumptions C15_accepted_reparses_to_itself.
+Print Assumptions C15_error_position_in_range.
 Print Assumptions C15_progress.
 Print Assumptions C15_attribute_pattern_refuted.
